@@ -166,7 +166,10 @@ pub fn spawn_generic(property: &str, tier: &str, n: u64, budget_s: f64, seed: u6
         let status = ch.wait().expect("wait");
         match so.lines().rev().find(|l| l.starts_with("@@RESULT ")) {
             Some(l) => out.push(Ok(l["@@RESULT ".len()..].to_string())),
-            None => out.push(Err(format!("worker {} produced no result (status {:?}); stderr tail: {}", i, status.code(), tail(&se, 1500)))),
+            None => match so.lines().rev().find(|l| l.starts_with("@@HUNG ")) {
+                Some(h) => out.push(Err(format!("@@HUNG worker {}: a request did not return: {}", i, &h["@@HUNG ".len()..]))),
+                None => out.push(Err(format!("worker {} produced no result (status {:?}); stderr tail: {}", i, status.code(), tail(&se, 1500)))),
+            },
         }
     }
     out
@@ -226,7 +229,10 @@ pub fn spawn_workers(p: &ParentCfg) -> (BTreeMap<String, Stats>, Vec<String>) {
                     }
                 }
             }
-            None => errors.push(format!("worker {} produced no result (status {:?}); stderr tail: {}", i, status.code(), tail(&se, 1500))),
+            None => match so.lines().rev().find(|l| l.starts_with("@@HUNG ")) {
+                Some(h) => errors.push(format!("worker {}: a request did not return (the check cannot go on; hangs are decided by C09 / C11): {}", i, &h["@@HUNG ".len()..])),
+                None => errors.push(format!("worker {} produced no result (status {:?}); stderr tail: {}", i, status.code(), tail(&se, 1500))),
+            },
         }
     }
     (merged, errors)
